@@ -213,6 +213,18 @@ fn setup(line: &str) -> Setup {
     Setup { vars, props, ids, rest }
 }
 
+/// sub-command `deps`: the dependency table built while the propagators were posted (which propagators are woken when a
+/// variable changes: Propagators::on_bound_change), one entry per variable, propagator ids in registration order
+pub fn run_deps(line: &str) -> String {
+    let st = setup(line);
+    selen::verif_hooks::set_agenda_seed(None);
+    let rows: Vec<String> = st.ids.iter().map(|&v| {
+        let ps: Vec<String> = st.props.on_bound_change(v).map(|p| p.0.to_string()).collect();
+        if ps.is_empty() { "-".to_string() } else { ps.join(",") }
+    }).collect();
+    format!("deps {}", rows.join("|"))
+}
+
 pub fn run_prop(line: &str) -> String {
     let st = setup(line);
     let agenda = Agenda::with_props(st.props.get_prop_ids_iter());
